@@ -251,6 +251,8 @@ PROPS = {
             rapid("c06", "TestPropInput", quick=(2500, 5), thorough=(40000, 12)),
             rapid("c06", "TestPropDisconnect", quick=(3, 6), thorough=(40, 14)),
             rapid("c06", "TestPropOversize", quick=(400, 4), thorough=(6000, 8)),
+            plain("c06", "TestReplayMemDisconnect"),
+            rapid("c06", "TestPropDisconnectMem", quick=(5, 6), thorough=(60, 14)),
             fuzz("c06", "FuzzServerBytes", secs=120, par=4),
         ],
     },
@@ -523,7 +525,9 @@ _MORE = {
            "UNAUTHENTICATE, after a failed LOGIN), buffered arguments above 4096 octets in 11 commands, synchronising and non-synchronising, and SASL/DONE "
            "lines of 4000..70000 octets: no continuation request may be sent for data that must be refused, a tagged NO/BAD or BYE must follow, nothing of that "
            "size (and no command-like literal data) reaches the backend. Nesting probes are repeated after 9000 commands carrying empty lists on the same "
-           "connection, and a SEARCH nested deeper than the cap must not reach the backend.",
+           "connection, and a SEARCH nested deeper than the cap must not reach the backend. Disconnect sweeps are repeated with the repository's in-memory "
+           "backend behind the server (it streams body literals): the client vanishes at every 3rd (thorough: every) offset of generated transcripts, and after "
+           "having received k bytes of the responses for sampled k (the server's write fails there); goroutines gone, session closed exactly once.",
     "C07": " Mailbox changes are also made between two network writes of a running Poll (write hook on the server side of the connection): updates queued "
            "while a poll is writing must neither be lost nor overtake or overwrite the ones being written. SessionTracker.NumMessages() must equal the number "
            "of messages the client has been told about after every step.",
